@@ -315,6 +315,11 @@ static VF_UNUSED int vf_less_n(struct vf_ctx *c, int mode, int arg, uint32_t k, 
 	int lo = c->tok_prefix, n;
 	if (lo > leng)
 		lo = leng;	/* (only after yymore() at the end of a source: outside the model's domain) */
+	if (mode == 3) {
+		/* absolute, may lie inside a pending yymore() prefix */
+		n = arg < 0 ? 0 : arg;
+		return n > leng ? leng : n;
+	}
 	if (mode == 0)
 		n = arg;
 	else if (mode == 1)
